@@ -311,28 +311,35 @@ MATH_FNS = ['sin', 'cos', 'tan', 'exp', 'log', 'tanh', 'asin', 'cbrt', 'log10', 
 
 # ----------------------------------------------------------------------------------------------
 # UF cost model (measured): CBMC's Ackermann expansion costs ~ sum over function symbols of C(#applications, 2) with
-# the applications of the translated code and of the clauses both counted (a commutative FADD/FMUL is two
-# applications); about 10 s of CPU per 1000 pairs.  Cases are generated within a pair budget.
+# the applications of the translated code and of the clauses both counted; roughly 10 s of CPU per 1000 pairs for
+# fsub/fdiv/sqrt/libm and three times that for the commutative fadd/fmul.  Cases are generated within a pair budget.
 # ----------------------------------------------------------------------------------------------
 def _apps(e, acc, seen):
     if id(e) in seen: return
     seen.add(id(e))
     if e.ty.kind == 'float':
-        if e.op in ('add', 'mul'): acc['f' + e.op] = acc.get('f' + e.op, 0) + 2
-        elif e.op in ('sub', 'div', 'sqrt'): acc['f' + e.op] = acc.get('f' + e.op, 0) + 1
+        if e.op in ('add', 'mul', 'sub', 'div', 'sqrt'): acc['f' + e.op] = acc.get('f' + e.op, 0) + 1
         elif e.op == 'libm': acc[e.data] = acc.get(e.data, 0) + 1
     for a in e.args: _apps(a, acc, seen)
 
 def uf_pairs(case):
+    """weighted Ackermann pairs of a UF case: per function symbol C(m,2) with m = applications in the clauses (all
+    alternatives) + in the code (one alternative); the commutative symbols (operands ordered by an if-then-else) weigh 3."""
     if case.mode != 'UF': return 0
     spec = {}; seen = set()
     for (b, k, e) in case.ensures: _apps(e, spec, seen)
     nalt = getattr(case, 'nalt', 1)
     tot = 0
     for sym, n in spec.items():
-        m = n + n // nalt          # clauses (all alternatives) + the code (one alternative)
-        tot += m * (m - 1) // 2
+        m = n + n // nalt
+        tot += m * (m - 1) // 2 * (3 if sym in ('fadd', 'fmul') else 1)
     return tot
+
+def sym_cost(tree, form, n, ty):
+    """SYM cost index of an integer case (measured: the solver has to prove two separately built adder networks
+    equal; beyond an index of ~40 a case takes minutes): elements x adders per element x (bits / 32)."""
+    ops = sum(1 for x in tree.walk() if x.kind in ('bin', 'cmp') or (x.kind == 'un')) + (1 if form != 'set' else 0)
+    return n * max(ops, 1) * ty.bits // 32
 
 def fit(rng, make, cands, budget, tries=40):
     """first candidate (random order) whose case fits the pair budget; prefers the costliest of a few fitting ones."""
@@ -352,18 +359,20 @@ def fit(rng, make, cands, budget, tries=40):
 def finish(c):
     """heavy UF cases go straight to the assertion form (the DFCC-instrumented program would only burn its 45 s budget)."""
     c.pairs = getattr(c, 'pairs', None) if getattr(c, 'pairs', None) is not None else uf_pairs(c)
-    if c.pairs > 700: c.form = 'harness'
+    if c.pairs > 500 or getattr(c, 'symcost', 0) > 24: c.form = 'harness'
     return c
 
 def cases(tier, seed):
     rng = random.Random(seed)
     thorough = tier == 'thorough'
     out = []
-    PMAX = 6000 if thorough else 1000
+    PMAX = 6000 if thorough else 800
+    SMAX = 120 if thorough else 36
     FT = arith_trees(3 if thorough else 2, True)
     IT = arith_trees(3 if thorough else 2, False, neg=False)
     FT1 = [t for t in FT if t.depth() >= 1]
     IT1 = [t for t in IT if t.depth() >= 1]
+    ITD1 = [t for t in IT if t.depth() == 1]
     # trees without uninterpreted operations (negation / abs only): the only float trees affordable on the longest tensors
     UN = [un('neg', T_('a')), un('abs', T_('a')), un('neg', un('abs', T_('a'))), un('abs', un('neg', T_('b'))), un('neg', un('neg', T_('a')))]
     def add(c):
@@ -401,22 +410,29 @@ def cases(tier, seed):
                             c.pairs = uf_pairs(c)
                             if c.pairs <= PMAX: add(c); break
                 else:
-                    # ---- integers (SYM): every size 1..2V+1, `rounds` times
-                    rounds = (2 if thorough else 1) if len(sizes) > 20 else (4 if thorough else (2 if len(sizes) > 9 else 3))
+                    # ---- integers (SYM): every size 1..2V+1 (`rounds` times), the deepest tree within the cost index
+                    rounds = (2 if thorough else 1) if len(sizes) > 12 else (3 if thorough else 2)
                     forms = ['set', 'add', 'sub']
                     slots = [(n, r) for r in range(rounds) for n in sizes]
                     rng.shuffle(slots)
                     for i, (n, r) in enumerate(slots):
-                        form = forms[i % len(forms)]
-                        add(expr_case('arith', ty, rng.choice(IT1), form, n, cfg, mode, kind_for(form), 2 if (rng.random() < 0.2 and n >= 4) else 1))
+                        best = None
+                        for form in (forms[i % 3], 'set'):
+                            for t in sample(rng, IT1, 40) + sample(rng, ITD1, 6):
+                                k = sym_cost(t, form, n, ty)
+                                if k <= SMAX and (best is None or k > best[0]): best = (k, t, form)
+                            if best: break
+                        if best:
+                            c = expr_case('arith', ty, best[1], best[2], n, cfg, mode, kind_for(best[2]), 2 if (rng.random() < 0.2 and n >= 4) else 1)
+                            c.symcost = best[0]; add(c)
                 # ---- boolean-valued trees (comparisons, logic): scalar path by construction; fewer sizes
                 bts = bool_trees(FT if flt else IT, rng, 10 if thorough else 5)
                 bs = sample(rng, sizes, 6 if thorough else 3) + [V, 2 * V + 1]
                 for i, t in enumerate(bts):
                     for n in (bs[i % len(bs)], V + 1, V, 3, 1):
                         c = expr_case('bool', ty, t, 'set', n, cfg, mode, rng.choice(['own', 'ctor', 'map']))
-                        c.pairs = uf_pairs(c)
-                        if c.pairs <= PMAX: add(c); break
+                        c.pairs = uf_pairs(c); c.symcost = 0 if flt else sym_cost(t, 'set', n, ty)
+                        if c.pairs <= PMAX and c.symcost <= SMAX: add(c); break
                 # ---- tensor op= scalar
                 native_mul = (ty is INT and isa not in ('sse2', 'scalar')) or isa == 'avx512'    # native vector multiply (see int-kmul)
                 for form in ['add', 'sub', 'mul', 'div']:
@@ -432,7 +448,7 @@ def cases(tier, seed):
                                 c = scalar_rhs_case(ty, form, n, cfg, mode)
                                 if uf_pairs(c) <= PMAX: add(c)
                         else:                           # reciprocal-multiply by the shared value 1/s: short tensors only in UF
-                            for n in (1, 2, 3): add(scalar_rhs_case(ty, form, n, cfg, mode))
+                            for n in sorted({1, 2, 3, min(V + 1, 5)}): add(scalar_rhs_case(ty, form, n, cfg, mode))
                     elif form != 'div':
                         for n in ns:
                             if form == 'mul':
@@ -444,7 +460,7 @@ def cases(tier, seed):
                     ST = [bn('add', T_('a'), S_), bn('mul', S_, T_('a')), bn('add', bn('mul', T_('a'), S_), T_('b')), bn('mul', bn('sub', T_('a'), T_('b')), S_),
                           bn('add', S_, un('abs', T_('a'))), bn('sub', bn('mul', S_, T_('a')), T_('b'))]
                     for i, t in enumerate(sample(rng, ST, 6 if thorough else 3)):
-                        add(expr_case('sym-scalar', ty, t, ['set', 'add', 'mul', 'sub', 'div'][i % 5], 3 if i % 2 == 0 else 2, cfg, mode, ['own', 'ctor', 'map'][i % 3]))
+                        add(expr_case('sym-scalar', ty, t, ['set', 'add', 'mul', 'sub', 'div'][i % 5], min(V + 1, 5) if i % 2 == 0 else 3, cfg, mode, ['own', 'ctor', 'map'][i % 3]))
                     # ---- element-wise math functions (opaque per function)
                     for f in sample(rng, MATH_FNS, 6 if thorough else 2):
                         t = rng.choice([fn(f, T_('a')), bn('add', fn(f, T_('a')), T_('b')), fn(f, bn('sub', T_('a'), T_('b'))), bn('mul', K_(2.5), fn(f, T_('a')))])
